@@ -25,12 +25,13 @@ def entryHdr (gp : String) (i sz : Nat) : String := gp ++ "[" ++ toString i ++ "
 /-- prefix of the members of entry `i` -/
 def entryPfx (gp : String) (i : Nat) : String := gp ++ "[" ++ toString i ++ "]."
 def groupHdr (gp : String) (n sz : Nat) : String := gp ++ ":n=" ++ toString n ++ ",sz=" ++ toString sz
-def dataLine (pfx name : String) (payload : List Nat) : String := pfx ++ name ++ "=<" ++ SExp.hex payload ++ ">"
+def dataLine (pfx name : String) (payload : List Nat) (sz : Nat) : String :=
+  pfx ++ name ++ "=<" ++ SExp.hex payload ++ ">,sz=" ++ toString sz
 
 /-! ### specification side: from the value tree -/
 
 def dataObs (pfx : String) : List NData → List (List Nat) → List String
-  | d :: ds, p :: ps => dataLine pfx d.name p :: dataObs pfx ds ps
+  | d :: ds, p :: ps => dataLine pfx d.name p (d.lenSize + p.length) :: dataObs pfx ds ps
   | _, _ => []
 
 mutual
@@ -58,7 +59,7 @@ def modelDs (bo : ByteOrder) (buf : List Nat) (pfx : String) : List NData → Na
   | [], _ => []
   | d :: ds, p =>
     let n := rd bo buf p d.lenSize
-    dataLine pfx d.name (slice buf (p + d.lenSize) n) :: modelDs bo buf pfx ds (p + d.lenSize + n)
+    dataLine pfx d.name (slice buf (p + d.lenSize) n) (d.lenSize + n) :: modelDs bo buf pfx ds (p + d.lenSize + n)
 
 mutual
   def modelL (bo : ByteOrder) (buf : List Nat) (pfx : String) : NLevel → Nat → Nat → List String
